@@ -51,6 +51,12 @@ def main():
             meta = {'meta_unreadable': str(e)}
     if 'author' in meta and 'confirmed' in meta:
         meta = meta['author']
+    prev = {}
+    if os.path.exists(os.path.join(dest, 'meta.json')):
+        try:
+            prev = json.load(open(os.path.join(dest, 'meta.json')))
+        except Exception:      # noqa
+            prev = {}
     wt = tempfile.mkdtemp(prefix='sv_%s_' % tag, dir='/tmp')
     os.rmdir(wt)
     out = {'property': a.prop, 'variant': a.variant, 'author': meta, 'confirmed': {}}
@@ -98,12 +104,16 @@ def main():
         sh('git -C /repo worktree remove --force %s' % wt)
         shutil.rmtree(wt, ignore_errors=True)
         sh('git -C /repo worktree prune')
+    if 'pinned_suite' not in out['confirmed'] and prev.get('confirmed', {}).get('pinned_suite'):
+        out['confirmed']['pinned_suite'] = prev['confirmed']['pinned_suite']      # confirmed in an earlier run
+    if not out.get('needs') and prev.get('needs'):
+        out['needs'] = prev['needs']
     os.makedirs(dest, exist_ok=True)
     if os.path.abspath(patch) != os.path.abspath(os.path.join(dest, 'patch.diff')):
         shutil.copy(patch, os.path.join(dest, 'patch.diff'))
         shutil.copy(demo, os.path.join(dest, 'demo.py'))
     out['breaks'] = a.prop
-    out['needs'] = meta.get('needs', '')
+    out['needs'] = meta.get('needs', '') or prev.get('needs', '')
     out['ran'] = ['tools/seed_eval.py %s %s' % (a.prop, a.variant)]
     json.dump(out, open(os.path.join(dest, 'meta.json'), 'w'), indent=1)
     c = out['confirmed']
